@@ -39,6 +39,7 @@ def step (line : String) : String :=
   | "c06tz" :: a => Drv.C05.opTZ a
   | "c03s" :: a => Drv.C03.opS a
   | "c03r" :: a => Drv.C03.opR a
+  | "c03g" :: a => Drv.C03.opG a
   | "c18h" :: a => Drv.C18.opH a
   | "c07" :: a => Drv.C18.opC a
   | "c07xy" :: a => Drv.C18.opXY a
